@@ -640,6 +640,19 @@ pub fn def(tier: Tier) -> PropertyDef {
 		let strat = (proptest::sample::select(ls), any::<u64>(), 1u32..400, 0u8..4).prop_map(move |(n, seed, regime, pl)| LongCase { kind: name.to_string(), n, seed, steps, regime: regime * 8, plain: pl == 0 });
 		checks.push(pt(&format!("long_{name}"), tier.pick(8, 10), strat, run_long));
 	}
+	// very long histories for the O(1) single-accumulator and selection methods also in the quick tier: a
+	// correction that is applied every 2^16 steps needs a few dozen periods before it leaves the allowance
+	let very_long = tier.pick(4_000_000u64, 30_000_000);
+	for name in ["SMA", "TRIMA", "StDev", "Integral", "LinearVolatility", "Momentum", "Derivative", "RateOfChange", "Past", "Highest", "Lowest", "HighestLowestDelta", "HighestIndex", "LowestIndex"] {
+		let kind = dynm::kind(name).unwrap();
+		let min = match kind.params {
+			dynm::ParamKind::Len(min, _) => min.max(1),
+			_ => 1,
+		};
+		let ls: Vec<u32> = [2u32, 3, 5, 14].iter().copied().filter(|l| *l >= min).collect();
+		let strat = (proptest::sample::select(ls), any::<u64>(), 1u32..400, 0u8..4).prop_map(move |(n, seed, regime, pl)| LongCase { kind: name.to_string(), n, seed, steps: very_long, regime: regime * 8, plain: pl == 0 });
+		checks.push(pt(&format!("very_long_{name}"), tier.pick(2, 3), strat, run_long));
+	}
 	let rev = (prop_oneof![(1u32..=3, 1u32..=3), (1u32..=30, 1u32..=30), Just((126u32, 127u32))], any::<u64>()).prop_map(move |((left, right), seed)| LongRev { left, right, seed, steps: steps / 3 });
 	for i in 0..4 {
 		checks.push(pt(&format!("long_reversal_{i}"), tier.pick(6, 6), rev.clone(), run_long_rev));
@@ -651,7 +664,7 @@ pub fn def(tier: Tier) -> PropertyDef {
 	}
 	// every indicator with any averages: invariants and signals at every step of long structured streams
 	for name in cfggen::NAMES {
-		let opts = GenOpts { wide: false, price_sources: true, nonneg_ma: matches!(name, "RelativeStrengthIndex" | "StochasticOscillator" | "SMIErgodicIndicator" | "Envelopes" | "KeltnerChannel") };
+		let opts = GenOpts { wide: false, price_sources: true, nonneg_ma: matches!(name, "RelativeStrengthIndex" | "StochasticOscillator" | "SMIErgodicIndicator" | "Envelopes") };
 		let st = tier.pick(steps / 10, steps / 25);
 		// steady shapes (4, 5) run past 2^16 bars in both tiers
 		let strat = (cfggen::config_strategy(name, opts), any::<u64>(), 0u8..6, 2u8..=5).prop_map(move |(cfg, seed, shape, zig_period)| LongAny { cfg, seed, steps: if shape >= 4 { st.max(70_000) } else { st }, shape, zig_period });
@@ -660,7 +673,7 @@ pub fn def(tier: Tier) -> PropertyDef {
 	PropertyDef {
 		id: "C07",
 		level: "exploration",
-		rule: "Procedural streams (pure function of a (seed, regime) record; regimes: random walk, exactly flat, 10^+-k scale jump, monotone drift, integer lattice, sign flip) of 3*10^5 (thorough 10^7) steps for every finite-window and selection method at lengths {1,2,3,5,14,100,254}, 10^5 (3.3*10^6) steps for the reversal detectors, 7.5*10^4 (2.5*10^6) candles for the finite-memory indicators (CMO, MFI, RSI, SAR named by the property and nine others) with window-type averages. Oracles: (i) selections/positions/reversals compared EXACTLY with the from-scratch definition on a ring of recent inputs - every step of the first 2*256+n, bands around every multiple of 2^8 and 2^16, every 997th step, the last 1000 steps (reversals: every step); (ii) arithmetic outputs against the from-scratch formula at geometrically spaced checkpoints and over the last 3n steps, allowance K*eps*(n+t)*M_t*g; (iii) a fresh instance primed with the last window (2n for TRIMA/HMA; 3*max_period+8 candles for indicators) must agree with the veteran from then on. (iv) every one of the 37 indicators with generated configurations (any average kind) on streams of 3*10^4 (thorough 4*10^5) candles - the regime stream, a persistent up / down / saw-tooth trend carrying a zig-zag of period 2..5, or a strictly monotone rise / fall of >= 7*10^4 bars (every bar a new extreme), which keep oscillators on one side of zero while run, peak and bars-since counters keep counting: at EVERY step the documented ranges and orderings (C12 predicates, allowance for the true age) and every signal recomputed from the returned values (C06 detectors, exact). Non-trivial = a case with at least one late comparison (t > 1024) after >= 2 regime changes; for (iv) a stream longer than 1024 candles.",
+		rule: "Procedural streams (pure function of a (seed, regime) record; regimes: random walk, exactly flat, 10^+-k scale jump, monotone drift, integer lattice, sign flip) of 3*10^5 (thorough 10^7) steps for every finite-window and selection method at lengths {1,2,3,5,14,100,254}, 10^5 (3.3*10^6) steps for the reversal detectors, 7.5*10^4 (2.5*10^6) candles for the finite-memory indicators (CMO, MFI, RSI, SAR named by the property and nine others) with window-type averages. (sub-checks very_long_*: 4*10^6 (thorough 3*10^7) steps for the O(1) single-accumulator and selection methods at lengths {2,3,5,14}.) Oracles: (i) selections/positions/reversals compared EXACTLY with the from-scratch definition on a ring of recent inputs - every step of the first 2*256+n, bands around every multiple of 2^8 and 2^16, every 997th step, the last 1000 steps (reversals: every step); (ii) arithmetic outputs against the from-scratch formula at geometrically spaced checkpoints and over the last 3n steps, allowance K*eps*(n+t)*M_t*g; (iii) a fresh instance primed with the last window (2n for TRIMA/HMA; 3*max_period+8 candles for indicators) must agree with the veteran from then on. (iv) every one of the 37 indicators with generated configurations (any average kind) on streams of 3*10^4 (thorough 4*10^5) candles - the regime stream, a persistent up / down / saw-tooth trend carrying a zig-zag of period 2..5, or a strictly monotone rise / fall of >= 7*10^4 bars (every bar a new extreme), which keep oscillators on one side of zero while run, peak and bars-since counters keep counting: at EVERY step the documented ranges and orderings (C12 predicates, allowance for the true age) and every signal recomputed from the returned values (C06 detectors, exact). Non-trivial = a case with at least one late comparison (t > 1024) after >= 2 regime changes; for (iv) a stream longer than 1024 candles.",
 		assumptions: vec!["K = 256; a failure of (ii)/(iii) is classified by whether it stays inside the quadratic worst-case bound of a double accumulator (known-finding class for WMA-type drift) or not".into()],
 		exhaustive: false,
 		checks,
